@@ -98,3 +98,22 @@ Proof. exact framing_v0_refuted. Qed.
 Example C10_estime_v0_refuted :
   parse_es_v0 v0_es = Some 1790337630999999999%Z /\ parse_es v0_es = Some 1790337630099999999%Z.
 Proof. exact estime_v0_refuted. Qed.
+
+Example C10_mid_nonvacuous : mid_of 1790337600123456789 = 1790337600123%Z.
+Proof. vm_compute. reflexivity. Qed.
+
+Example C10_payload_nonvacuous :
+  encode_docs [[123; 125]%N; [123; 34; 97; 34; 58; 49; 125]%N]
+    = [2; 0; 0; 0; 123; 125; 7; 0; 0; 0; 123; 34; 97; 34; 58; 49; 125]%N /\
+  decode_docs 3 [2; 0; 0; 0; 123; 125; 7; 0; 0; 0; 123; 34; 97; 34; 58; 49; 125]%N
+    = Ok [[123; 125]%N; [123; 34; 97; 34; 58; 49; 125]%N].
+Proof. split; vm_compute; reflexivity. Qed.
+
+(* parseESTime as modelled: nine and more fraction digits, day overflow normalised by time.Date *)
+Example C10_estime_nonvacuous :
+  (* "2026-09-25 12:00:30.123456789" and "2026-02-30 00:00:00" (= 2026-03-02) *)
+  parse_es [50;48;50;54;45;48;57;45;50;53;32;49;50;58;48;48;58;51;48;46;49;50;51;52;53;54;55;56;57]%N
+    = Some 1790337630123456789%Z /\
+  parse_es [50;48;50;54;45;48;50;45;51;48;32;48;48;58;48;48;58;48;48]%N = Some 1772409600000000000%Z /\
+  parse_es [50;48;50;54;45;49;51;45;48;49;32;48;48;58;48;48;58;48;48]%N = None.
+Proof. repeat split; vm_compute; reflexivity. Qed.
